@@ -10,7 +10,6 @@ CONF_CFG = """CONSTANTS MaxRetx = %d
   OnceClose = TRUE
 INIT TInit
 NEXT TNext
-INVARIANT NotDone
 CONSTRAINT HW
 POSTCONDITION Post
 CHECK_DEADLOCK FALSE
